@@ -84,6 +84,10 @@ func alphabet(level string) []string {
 		add("RP:" + v)
 	}
 	add("FE:A", "FE:B")
+	add("VZ:p", "VZ:c")
+	if level != "core" {
+		add("VZ:p:pkh", "VZ:c:pkh")
+	}
 	add("SME", "SMN:h", "SMN:r")
 	add("SMA:ph", "SMA:pv:A", "SMA:pv:nil", "SMA:pc:A", "SMA:pc:nil")
 	if level != "core" {
@@ -348,6 +352,7 @@ func nodeAlphabet(level string) []string {
 	} else {
 		add("PH:A:forgedNext", "RP:ok")
 	}
+	add("VZ:p", "VZ:c")
 	add("SR", "SR:propose", "SR:A", "SR:B", "SR:nil", "SR:notready", "TF", "DR", "Tick", "BDA", "PROP", "Restart")
 	if level != "core" {
 		add("SR:X", "SR:N")
